@@ -33,6 +33,10 @@ func genOptsFor(r *lib.Rng, i int, bigEvery int) lib.GenOpts {
 		o.WrapEdit = true
 		o.MaxFiles = 2
 	}
+	if i%40 == 33 || i%40 == 13 {
+		o.HeaderThenFresh = true
+		o.MaxFiles = 2
+	}
 	if i%5 == 2 {
 		o.MaxFile = 3 * lib.BS
 		o.MaxFiles = 9
